@@ -15,19 +15,19 @@ inductive PyErr where
   | zeroDivision | typeError | valueError | indexError
 deriving DecidableEq, Repr
 
-structure V2 where
+@[ext] structure V2 where
   x : Rat
   y : Rat
 deriving DecidableEq, Repr, Inhabited
 
-structure V3 where
+@[ext] structure V3 where
   x : Rat
   y : Rat
   z : Rat
 deriving DecidableEq, Repr, Inhabited
 
 /-- flat row-major 4x4 matrix, field `mi` is `Matrix44._matrix[i]` / `Matrix44.m[i]` -/
-structure M44 where
+@[ext] structure M44 where
   m0 : Rat
   m1 : Rat
   m2 : Rat
